@@ -184,7 +184,7 @@ Definition wf_btok (b : btok) : Prop :=
 
 Lemma mtype_num_roundtrip t : wf_mtype t -> mtype_of_num (mtype_num t) = Some t.
 Proof.
-  destruct t as [| | | | | | | | | | | |n|]; try reflexivity. cbn. intros H.
+  destruct t as [| | | | | | | | | | | |n| |]; try reflexivity. cbn. intros H.
   assert (E : (n = 0 \/ n = 1 \/ n = 2 \/ n = 3 \/ n = 4)%N) by lia.
   repeat (destruct E as [E|E]); subst n; reflexivity.
 Qed.
@@ -211,9 +211,10 @@ Proof.
   - apply dec_enc_idx; tauto.
   - apply dec_enc_idx; tauto.
   - destruct k, a; reflexivity.
-  - cbn [app]. unfold dec_tok.
+  - destruct (is_undef t) eqn:Eu; [destruct t; try discriminate; reflexivity|].
+    cbn [app]. unfold dec_tok.
     assert (Hn : (mtype_num t <= 17)%N).
-    { destruct t; unfold wf_mtype, mtype_num in *; lia. }
+    { destruct t; unfold wf_mtype, mtype_num in *; try lia; discriminate. }
     pose proof (mtype_num_roundtrip t H) as Ht.
     remember (mtype_num t) as k eqn:Ek.
     assert (E : (k = 0 \/ k = 1 \/ k = 2 \/ k = 3 \/ k = 4 \/ k = 5 \/ k = 6 \/ k = 7 \/ k = 8 \/ k = 9 \/ k = 10
